@@ -40,7 +40,7 @@ def make_kfd(rng, node_mode=False):
         elif r < 0.5:
             for e in G.edges():
                 if rng.random() < 0.8:
-                    G.edges[e]["len"] = rng.choice([1, 2, 3, 5])
+                    G.edges[e]["len"] = rng.choice([1, 2, 3, 5, 0])
             kw["subpath_constraints_coverage_length"] = rng.choice([1, 0.5, 0.75])
             kw["length_attr"] = "len"
     k = max(1, len(set(map(tuple, paths))) + rng.choice([-1, 0, 0, 1]))
